@@ -27,7 +27,8 @@ type Task struct {
 	Harness bool // started through Kernel.Go
 	Done    bool
 	Label   string
-	exiting bool // the run is over and this goroutine is unwinding (see Kernel.Kill)
+	exiting bool   // the run is over and this goroutine is unwinding (see Kernel.Kill)
+	selN    uint64 // selects made by this task (see selectStart)
 }
 
 // Parked is a task waiting at a yield point for the kernel to release it.
@@ -58,6 +59,7 @@ type Kernel struct {
 	// rng state for the seeded shims (crypto/rand, math/rand)
 	rngmu sync.Mutex
 	rng   uint64
+	seed  uint64
 	// go statements announced by Spawn whose goroutine has not made its first yield yet, by parent goroutine
 	pending map[uint64][]pendingSpawn
 	// AdoptMiss counts goroutines that got their task id on arrival (no Spawn matched).
@@ -88,6 +90,7 @@ func NewKernel(seed uint64) *Kernel {
 		tasks:    map[uint64]*Task{},
 		never:    make(chan struct{}),
 		rng:      seed ^ 0x9e3779b97f4a7c15,
+		seed:     seed,
 	}
 
 	return k
@@ -608,13 +611,40 @@ func (c *RecvCase[T]) set(v reflect.Value, ok bool) {
 func (c *RecvCase[T]) V() T           { return c.v }
 func (c *RecvCase[T]) VOK() (T, bool) { return c.v, c.ok }
 
+// selectStart is the case a select of the calling task tries first: a function of the run seed, the task and the
+// number of selects that task has made - not a draw from a stream shared by all goroutines, whose order would depend
+// on the order in which the Go runtime runs goroutines that were woken together (a cancelled parent context wakes
+// every goroutine selecting on a child context at once).
+func (k *Kernel) selectStart(n int) int {
+	g := Goid()
+
+	k.mu.Lock()
+
+	if k.dead || k.dying {
+		k.mu.Unlock()
+
+		return 0
+	}
+
+	t := k.taskForLocked(g)
+	t.selN++
+	z := k.seed ^ (uint64(t.ID)+1)*0x9e3779b97f4a7c15 ^ t.selN*0xbf58476d1ce4e5b9
+	k.mu.Unlock()
+
+	z = (z ^ (z >> 30)) * 0xbf58476d1ce4e5b9
+	z = (z ^ (z >> 27)) * 0x94d049bb133111eb
+	z ^= z >> 31
+
+	return int(z % uint64(n))
+}
+
 // Select returns the index of the chosen case, -1 for default.
 func Select(hasDefault bool, cases ...selCase) int {
 	n := len(cases)
 	start := 0
 
 	if k := cur.Load(); k != nil && n > 1 {
-		start = int(k.Rand64() % uint64(n))
+		start = k.selectStart(n)
 	}
 
 	for j := 0; j < n; j++ {
@@ -638,6 +668,19 @@ func Select(hasDefault bool, cases ...selCase) int {
 	}
 
 	i, v, ok := reflect.Select(rc)
+
+	// woken by a closed channel (a cancelled context, typically): nothing was consumed, and other cases may have
+	// become ready in the same instant (a cancelled parent closes the Done channels of its children in map order);
+	// which one is taken is decided again in the seeded order, not by the runtime
+	if rc[i].Dir == reflect.SelectRecv && !ok {
+		for j := 0; j < n; j++ {
+			idx := (start + j) % n
+			if cases[idx].try() {
+				return idx
+			}
+		}
+	}
+
 	cases[i].set(v, ok)
 
 	return i
